@@ -244,7 +244,12 @@ impl<'a> ListStylist<'a> {
                     self.can_attach = false;
                     if let Some(nl) = self.keep_linebreak {
                         if newline_cnt >= 2 && !self.items.is_empty() {
-                            self.items.push(Item::Linebreak((newline_cnt - 1).min(nl)));
+                            // Blank lines on both sides of a comma add up to one run in the output.
+                            if let Some(Item::Linebreak(n)) = self.items.last_mut() {
+                                *n = (*n + newline_cnt - 1).min(nl);
+                            } else {
+                                self.items.push(Item::Linebreak((newline_cnt - 1).min(nl)));
+                            }
                         }
                     }
                 }
